@@ -173,7 +173,7 @@ C12Cases(z) ==
 Pair(x) == <<x, [x EXCEPT !.hooks = 1, !.pair = 1]>>
 HookBase(z) ==
     {x \in C07Cases(0) : Len(x.script) <= (IF Thorough THEN 6 ELSE 4) /\ (x.req.fc \in {1, 3, 5, 16, 17, 23} \/ Thorough)}
-    \cup {x \in C08Cases(0) : x.req.fc \in {3, 5, 17} \/ Thorough}
+    \cup {x \in {y \in C08Cases(0) : y.op = "exch"} : x.req.fc \in {3, 5, 17} \/ Thorough}
 C19Cases(z) == {[op |-> "pair", a |-> x, b |-> [x EXCEPT !.hooks = 1, !.pair = 1]] : x \in HookBase(0)}
 
 CaseSet(z) == CASE Set = "c07" -> C07Cases(0) [] Set = "c08" -> C08Cases(0) [] Set = "c12" -> C12Cases(0) [] Set = "c19" -> C19Cases(0)
